@@ -623,3 +623,97 @@ Example ex_xstate :
   xstep ex_env x (nth 2 ex_xhistory (XOld (Remove o_any [] []))) = Err Refused /\
   xstep ex_env x (XDeclare (o_in s1) (lit "a") (lit "2") (Some (lit "/prod/a1")) TDefault None []) = Err Refused.
 Proof. vm_compute. auto. Qed.
+
+(* ================================================================ tags that are not recognised
+   [kstep known e x o]: the command o under the list [known] of registered global tags.  A command
+   whose tag is not in the list raises (TagNotRecognized) before anything is written. *)
+
+(* a command naming an unrecognised tag -- declare -t, assignTag, unassignTag, undeclare --tag, with
+   or without force, noaction, a table stream, external files -- raises and changes nothing: no new
+   version file, no new flavor block, no copy below ups_db *)
+Theorem unknown_tag_refused_changes_nothing known e x o :
+  unknown_tag known o = true ->
+  (exists k, kstep known e x o = Err k) /\ kstep_total known e x o = x.
+Proof.
+  intro H. destruct (kstep_unknown known e x o H) as [H1 H2]. split; [eexists; exact H1|exact H2].
+Qed.
+Print Assumptions unknown_tag_refused_changes_nothing.
+
+(* declare -t with an unrecognised tag is refused whatever else was asked for *)
+Theorem unknown_tag_declare_refused known e x o n v dir tb t ext :
+  mem_str t known = false ->
+  kstep known e x (XDeclare o n v dir tb (Some t) ext) = Err Refused /\
+  kstep_total known e x (XDeclare o n v dir tb (Some t) ext) = x.
+Proof.
+  intro H. assert (U : unknown_tag known (XDeclare o n v dir tb (Some t) ext) = true).
+  { unfold unknown_tag. cbn [xop_tag]. rewrite H. reflexivity. }
+  destruct (kstep_unknown known e x _ U) as [H1 H2]. split; [exact H1|exact H2].
+Qed.
+Print Assumptions unknown_tag_declare_refused.
+
+(* the commands whose tag is recognised, and those that name no tag, are the commands of [xstep] *)
+Theorem known_tag_commands_unaffected known e x o :
+  unknown_tag known o = false -> kstep known e x o = xstep e x o.
+Proof. intro H. apply (proj1 (kstep_known known e x o H)). Qed.
+Print Assumptions known_tag_commands_unaffected.
+
+(* ANY command that raises has changed nothing, records and copies *)
+Theorem any_refused_command_changes_nothing known e x o k :
+  kstep known e x o = Err k -> kstep_total known e x o = x.
+Proof. apply kstep_total_err. Qed.
+Print Assumptions any_refused_command_changes_nothing.
+
+(* a history is worth the history in which the commands with an unrecognised tag were never typed:
+   in particular the first version declared afterwards of a product still becomes current *)
+Theorem history_ignores_unknown_tags known e x os :
+  krun known e x os = xrun e x (recognised known os).
+Proof. apply krun_recognised. Qed.
+Print Assumptions history_ignores_unknown_tags.
+
+Theorem unknown_tags_no_dangling_tag known e path os :
+  let d := xd (krun known e (xempty path) os) in
+  forall s n t f v, db_tag d s n t f = Some v -> db_decl d s n v f <> None.
+Proof. cbv zeta. rewrite krun_recognised. apply ext_no_dangling_tag. Qed.
+Print Assumptions unknown_tags_no_dangling_tag.
+
+(* ================================================================ directories beside a stack
+   A directory whose path merely begins with the characters of the path of a stack (/x/stack2,
+   /x/stack-extras for the stack /x/stack) is not inside that stack: it is no home stack, and the
+   declaration records it as it was given ([ext_declared_is_found] holds for every directory). *)
+Theorem sibling_directory_is_outside_stack s c r :
+  ascii_eqb "/"%char c = false -> is_subpath (stack_dir s ++ c :: r) (stack_dir s) = false.
+Proof. apply is_subpath_sibling. Qed.
+Print Assumptions sibling_directory_is_outside_stack.
+
+Theorem sibling_directory_goes_to_first_writable e s path o c r w :
+  ascii_eqb "/"%char c = false -> o_stack o = None ->
+  home_stack path (stack_dir s ++ c :: r) = None ->
+  first_writable (e_ro e) (s :: path) = Some w ->
+  xtarget e (s :: path) o (stack_dir s ++ c :: r) = Ok (w, w).
+Proof.
+  intros Hc Ho Hh Hw. unfold xtarget. rewrite Ho. cbn [home_stack].
+  rewrite (is_subpath_sibling (stack_dir s) c r Hc), Hh, Hw. reflexivity.
+Qed.
+Print Assumptions sibling_directory_goes_to_first_writable.
+
+(* stacks whose names are prefixes of each other: a product inside /s12 declared into /s1 by -Z, one
+   in /s1-extras declared without -Z (no home stack: first stack), then the other flavor of the first
+   one declared in the shared version file, and a command with an unrecognised tag in between *)
+Example ex_prefix_stacks :
+  let s12 := lit "s12" in
+  let e := mkEnv [] [(lit "/s12/prod/a1/ups/a.table", lit "# a"); (lit "/s1-extras/b2/ups/b.table", lit "# b");
+                     (lit "/s1/prod/a1/ups/a.table", lit "# a1")] in
+  let x := krun [lit "current"; lit "stable"] e (xempty [s1; s12])
+             [ XDeclare (o_in s1) (lit "a") (lit "1") (Some (lit "/s12/prod/a1")) TDefault None [];
+               XDeclare o_any (lit "b") (lit "2") (Some (lit "/s1-extras/b2")) TDefault None [];
+               XDeclare (o_in s1) (lit "a") (lit "2") (Some (lit "/s12/prod/a1")) TDefault (Some (lit "stabel")) [];
+               XDeclare (mkOpts generic (Some s1) false false) (lit "a") (lit "1") (Some (lit "/s1/prod/a1")) TDefault None [];
+               XOld (AssignTag o_any (lit "nightly") (lit "a") (lit "1")) ] in
+  adecls (view (xd x)) =
+    [ ((s1, lit "a", lit "1", linux), (lit "/s12/prod/a1", lit "/s12/prod/a1/ups/a.table"));
+      ((s1, lit "a", lit "1", generic), (lit "/s1/prod/a1", lit "/s1/prod/a1/ups/a.table"));
+      ((s1, lit "b", lit "2", linux), (lit "/s1-extras/b2", lit "/s1-extras/b2/ups/b.table")) ] /\
+  atags (view (xd x)) = [ ((s1, lit "a", lit "current", linux), lit "1"); ((s1, lit "a", lit "current", generic), lit "1");
+                          ((s1, lit "b", lit "current", linux), lit "2") ] /\
+  home_stack [s1; s12] (lit "/s12/prod/a1") = Some s12 /\ home_stack [s1; s12] (lit "/s1-extras/b2") = None.
+Proof. vm_compute. auto. Qed.
